@@ -66,14 +66,14 @@ def tlc_jobs(tier):
         J.append(("safety_L3_F1", "Replication", cfg_from("Replication_safety.cfg"), W, "hold"))
         J.append(("safety_L2_F1_late", "Replication", cfg_from("Replication_safety.cfg", MaxLogs=2, LateAccepts="TRUE"), W, "hold"))
         J.append(("live_L2", "Replication", cfg_from("Replication_live.cfg"), W, "hold"))
-        J.append(("join_L2", "Replication", cfg_from("Replication_join.cfg"), W, "hold"))
+        J.append(("join_L2", "Replication", cfg_from("Replication_join.cfg", LateAccepts="FALSE"), W, "hold"))
     else:
         J.append(("safety_L4_F2", "Replication", cfg_from("Replication_safety.cfg", MaxLogs=4, MaxFail=2), dict(workers=5, timeout=2400), "hold"))
         J.append(("safety_L3_F2_late", "Replication", cfg_from("Replication_safety.cfg", MaxLogs=3, MaxFail=2, LateAccepts="TRUE"), dict(workers=6, timeout=2400), "hold"))
         J.append(("live_L3", "Replication", cfg_from("Replication_live.cfg", MaxLogs=3), W, "hold"))
         J.append(("live_L2_late_F2", "Replication", cfg_from("Replication_live.cfg", MaxFail=2, LateAccepts="TRUE"), W, "hold"))
         J.append(("join_L3", "Replication", cfg_from("Replication_join.cfg", MaxLogs=3), W, "hold"))
-    J.append(("live_reset", "Replication", cfg_from("Replication_live_reset.cfg"), W, "finding"))
+    J.append(("live_reset", "Replication", cfg_from("Replication_live_reset.cfg", MaxRestarts=0), dict(workers=2, timeout=1500), "finding"))
     small = dict(workers=1, timeout=600)
     J.append(("find_persisted", "Replication", cfg_from("Replication_find_persisted.cfg"), small, "finding"))
     J.append(("find_gap", "Replication", cfg_from("Replication_find_gap.cfg"), small, "finding"))
@@ -256,58 +256,82 @@ def fmt_events(evs, limit=60):
     return out
 
 
-def sig_of(sc, oracle):
-    for f in sc.get("findings") or []:
-        if f["oracle"] == oracle and f.get("staleStoreAfterReset"):
-            return SIG_RESET
-    if any(f.get("staleStoreAfterReset") for f in sc.get("findings") or []):
+def sig_of(sc, rejected_ev):
+    findings = sc.get("findings") or []
+    if any(f.get("staleStoreAfterReset") for f in findings):
         return SIG_RESET
-    return "%s/%s" % (oracle, sc["kind"])
+    if findings:
+        return "%s/%s" % (findings[0]["oracle"], sc["kind"])
+    if rejected_ev is not None:
+        return "trace-not-a-behaviour/%s" % rejected_ev["k"]
+    return "tlc-invariant/%s" % sc["kind"]
 
 
-def report_scenario(c, binp, work, sc, tlc_inv, rejected_ev):
-    """Turn the findings about one scenario into violations (after reproducing) - or Inconclusive."""
+def cross_check(sc, tlc_inv, rejected_ev):
+    """The Go oracle and TLC evaluate the same predicates on the same events; InvStartPos is the
+    TLC-side early form of InvNoGapSinceReset (a start position beyond the acknowledged prefix)."""
     findings = sc.get("findings") or []
     go_invs = set(ORACLE_TO_INV[f["oracle"]] for f in findings if f["oracle"] in ORACLE_TO_INV)
-    # the Go oracle and TLC evaluate the same predicates on the same events; InvStartPos is the TLC-side
-    # early form of InvNoGapSinceReset (start position read beyond the acknowledged prefix)
     tl = set(tlc_inv) - {"InvStartPos", "InvLastLeAcked"}
     if rejected_ev is None and tl != go_invs:
         raise vlib.Inconclusive("scenario %s: Go oracle %s and TLC invariants %s disagree" % (sc["uid"], sorted(go_invs), sorted(tlc_inv)))
-    names = sorted(set(f["oracle"] for f in findings)) or (["TraceRejected"] if rejected_ev is not None else [])
-    if not names:
-        return
-    # reproduce once (rule: a counterexample that does not reproduce is not a verdict)
+
+
+def reproduce(binp, work, sc):
+    """Run the scenario again; -> (set of oracle names seen, replay object)."""
+    tag = "repro_" + sc["uid"].replace(".", "_").replace("/", "_")
     if sc["kind"] == "schedule":
-        again = schedule_run(binp, work, "repro_" + sc["uid"].replace(".", "_"), [sc["schedule"]])[0]
+        again = schedule_run(binp, work, tag, [sc["schedule"]])[0]
         rep = set(f["oracle"] for f in again.get("findings") or [])
-        replay = dict(engine="vh-repl", how=".build/vh-repl schedule -in <file with [schedule]>", schedule=sc["schedule"])
+        replay = dict(engine="vh-repl", how=".build/vh-repl schedule -in <file containing [schedule]>", schedule=sc["schedule"])
     else:
-        prefix = os.path.join(work, "repro_" + sc["uid"].replace(".", "_"))
-        run_vh(binp, ["one", "-n", "20", "-params", json.dumps(sc["params"]), "-out", prefix + ".ev", "-results", prefix + ".res"], 600)
+        prefix = os.path.join(work, tag)
+        run_vh(binp, ["one", "-n", "25", "-params", json.dumps(sc["params"]), "-out", prefix + ".ev", "-results", prefix + ".res"], 600)
         rep = set()
         for r in load_run(prefix):
             rep |= set(f["oracle"] for f in r.get("findings") or [])
-        replay = dict(engine="vh-repl", how=".build/vh-repl one -n 20 -params '<params>'", params=sc["params"])
-    if rejected_ev is not None and not findings:
-        # conformance failure only: the recorded trace itself is the evidence; re-validate a rerun
-        text = "trace of the real code is not a behaviour of Replication.tla: event %s cannot be explained" % json.dumps(rejected_ev)
-        replay.update(events=fmt_events(sc["events"], 400), observation=sc["observation"])
-        c.violation("trace-not-a-behaviour/%s" % rejected_ev["k"], text, replay)
-        return
-    if not (set(names) & rep):
-        raise vlib.Inconclusive("scenario %s: findings %s did not reproduce (%s)" % (sc["uid"], names, sorted(rep)))
-    obs = dict(sc["observation"])
-    obs["batches"] = [(b["ep"], b["ids"]) for b in obs.get("batches") or []]
-    replay.update(findings=findings, observation=obs, events=fmt_events(sc["events"], 400))
-    done = set()
-    for f in findings:
-        sig = sig_of(sc, f["oracle"])
-        if sig in done:
-            continue
-        done.add(sig)
-        text = "%s: %s (scenario %s; persisted=%d, produced=%d, acknowledged since reset=%s)" % (
-            f["oracle"], f["text"], sc["id"], obs["persisted"], obs["produced"], obs.get("gotSinceReset"))
+        replay = dict(engine="vh-repl", how=".build/vh-repl one -n 25 -params '<params>'", params=sc["params"])
+    return rep, replay
+
+
+def report(c, binp, work, flagged, inv, rej):
+    """Group the flagged scenarios by signature; reproduce one representative per signature (schedules
+    first: they are deterministic) and report it."""
+    groups = {}
+    for sc in flagged:
+        cross_check(sc, inv.get(sc["uid"], set()), rej.get(sc["uid"]))
+        groups.setdefault(sig_of(sc, rej.get(sc["uid"])), []).append(sc)
+    for sig, scs in sorted(groups.items())[:6]:
+        scs.sort(key=lambda s: (s["kind"] != "schedule", -len(s.get("findings") or []), len(s["events"])))
+        chosen, replay = None, None
+        for sc in scs[:4]:
+            names = set(f["oracle"] for f in sc.get("findings") or [])
+            if not names:
+                # only the conformance check failed: the recorded trace is the evidence
+                chosen, replay = sc, dict(engine="vh-repl", params=sc["params"], schedule=sc.get("schedule"))
+                break
+            rep, replay = reproduce(binp, work, sc)
+            if names & rep:
+                chosen = sc
+                break
+        if chosen is None:
+            raise vlib.Inconclusive("findings with signature %s did not reproduce (e.g. scenario %s)" % (sig, scs[0]["id"]))
+        sc = chosen
+        obs = dict(sc["observation"])
+        obs["batches"] = [(b["ep"], b["ids"]) for b in obs.get("batches") or []]
+        replay.update(findings=sc.get("findings"), tlc_invariants=sorted(inv.get(sc["uid"], set())),
+                      rejected_event=rej.get(sc["uid"]), observation=obs, events=fmt_events(sc["events"], 400))
+        parts = ["%s: %s" % (f["oracle"], f["text"]) for f in sc.get("findings") or []]
+        if rej.get(sc["uid"]) is not None:
+            parts.append("trace is not a behaviour of Replication.tla: event %s cannot be explained" % json.dumps(rej[sc["uid"]]))
+        if not parts:
+            parts.append("TLC invariants failed on the recorded trace: %s" % sorted(inv.get(sc["uid"], set())))
+        head = ""
+        if sig == SIG_RESET:
+            head = ("a StorePipelineState issued by the subscriber of a stopped pipeline took effect after ResetPipeline "
+                    "had set last_log_id to NULL; ")
+        text = "%s%s [scenario %s (%s); produced=%d persisted=%d acknowledged since the last reset=%s; %d scenario(s) with this signature]" % (
+            head, " | ".join(parts), sc["id"], sc["kind"], obs["produced"], obs["persisted"], obs.get("gotSinceReset"), len(scs))
         c.violation(sig, text, replay)
 
 
@@ -317,27 +341,27 @@ def run(c):
     tier = c.tier
     q = tier == "quick"
     work = vlib.scratch("c33")
+    pool = cf.ThreadPoolExecutor(max_workers=7)
     try:
         binp = vlib.go_build("vh-repl")
 
-        # ---- 1. TLC on the specification (in parallel with the scenarios)
+        # ---- 1. TLC on the specification (runs while the scenarios are executed and validated)
         jobs = tlc_jobs(tier)
-        pool = cf.ThreadPoolExecutor(max_workers=4)
         futs = {pool.submit(run_tlc_job, j[:4]): j for j in jobs}
 
-        # ---- 2. random scenarios on the real code
+        # ---- 2. random scenarios on the real code, and validation of their traces
         n_rand = 100 if q else 2000
         t0 = time.time()
         rnd = random_runs(binp, work, c.seed, n_rand, 4 if q else 8)
         c.set("random_scenarios", len(rnd))
         c.set("random_scenarios_wall_s", round(time.time() - t0, 1))
+        val_rnd = pool.submit(validate_parallel, c, "random", rnd, work, 2 if q else 6)
 
         # ---- collect TLC results
         results = {}
         for f in cf.as_completed(futs):
             name, r = f.result()
             results[name] = (r, futs[f])
-        pool.shutdown()
         schedules = []
         design_findings = []
         for name, (r, job) in sorted(results.items()):
@@ -354,9 +378,9 @@ def run(c):
                 if r.distinct < 1000:
                     raise vlib.Inconclusive("TLC %s explored only %d states" % (name, r.distinct))
             elif expect.startswith("must_fail:"):
-                inv = expect.split(":", 1)[1]
-                if ("invariant", inv) not in r.violations:
-                    raise vlib.Inconclusive("negative control %s: TLC did not report %s" % (name, inv))
+                inv_name = expect.split(":", 1)[1]
+                if ("invariant", inv_name) not in r.violations:
+                    raise vlib.Inconclusive("negative control %s: TLC did not report %s" % (name, inv_name))
                 cases = vlib.tlc_cases(r.out)
                 if cases:
                     schedules.append(dict(id=name, pageSize=2, source="tlc-negative-control:" + name, steps=cases[0]))
@@ -375,7 +399,7 @@ def run(c):
         if design_findings:
             c.set("design_level_findings", design_findings)
             c.note("design-level (model only): " + "; ".join(design_findings) +
-                   "; with JoinSubscriber=TRUE (stop waits for the subscriber) every property holds")
+                   "; with JoinSubscriber=TRUE (a stop waits for the subscriber) every property holds")
 
         # ---- 3. schedules forced on the real code (TLC counterexamples, negative controls, samples)
         if not q:
@@ -411,18 +435,20 @@ def run(c):
         scen = rnd + sch
         incon = [s for s in scen if s["status"] == "inconclusive"]
         c.set("scenarios_inconclusive", len(incon))
-        if len(incon) > max(3, len(scen) // 20):
-            raise vlib.Inconclusive("%d of %d scenarios inconclusive, e.g. %s: %s" % (len(incon), len(scen), incon[0]["id"], incon[0].get("why")))
         for s in incon:
             if (s.get("why") or "").startswith("harness"):
                 raise vlib.Inconclusive("scenario %s: %s" % (s["id"], s["why"]))
+        if len(incon) > max(3, len(scen) // 20):
+            raise vlib.Inconclusive("%d of %d scenarios inconclusive, e.g. %s: %s" % (len(incon), len(scen), incon[0]["id"], incon[0].get("why")))
 
         # ---- 5. trace validation of every recorded trace
-        acc, rej, inv = validate_parallel(c, "random", rnd, work, 2 if q else 8)
-        acc2, rej2, inv2 = validate_parallel(c, "schedules", sch, work, 1 if q else 4) if sch else ([], {}, {})
-        acc += acc2
-        rej.update(rej2)
-        inv.update(inv2)
+        val_sch = pool.submit(validate_parallel, c, "schedules", sch, work, 1 if q else 4) if sch else None
+        acc, rej, inv = val_rnd.result()
+        if val_sch is not None:
+            acc2, rej2, inv2 = val_sch.result()
+            acc += acc2
+            rej.update(rej2)
+            inv.update(inv2)
         c.set("traces_validated_against_impl", len(acc))
         c.set("traces_rejected", len(rej))
         c.set("trace_events", sum(len(tlc_events(s)) for s in scen))
@@ -437,8 +463,8 @@ def run(c):
                      sum(1 for e in s["events"] if e["k"] == "Accept" and e["ok"]) >= 2), None)
         if base is None:
             raise vlib.Inconclusive("no accepted trace for the negative control")
-        controls = []
-        for what in ("store+1", "batch-shift"):
+
+        def control(what):
             bad = json.loads(json.dumps(base))
             evs = bad["events"]
             if what == "store+1":
@@ -451,14 +477,16 @@ def run(c):
             a, r_, i_ = validate_batch(c, "negctl-" + what, [bad], work)
             if not r_ and not i_:
                 raise vlib.Inconclusive("negative control on the binding: corrupted trace (%s) was accepted" % what)
-            controls.append("%s -> %s" % (what, "rejected at " + r_[bad["uid"]]["k"] if r_ else "invariant " + ",".join(sorted(i_[bad["uid"]]))))
+            return "%s -> %s" % (what, "rejected at " + r_[bad["uid"]]["k"] if r_ else "invariant " + ",".join(sorted(i_[bad["uid"]])))
+
+        controls = list(pool.map(control, ("store+1", "batch-shift")))
         c.set("negative_control", "one field of accepted trace %s corrupted: %s" % (base["id"], "; ".join(controls)))
 
         # ---- 7. violations
         flagged = [s for s in scen if (s.get("findings") or s["uid"] in rej or s["uid"] in inv)]
-        for s in flagged[:8]:
-            report_scenario(c, binp, work, s, inv.get(s["uid"], set()), rej.get(s["uid"]))
-        for s in scen[:2] + sch[:2]:
+        c.set("scenarios_flagged", len(flagged))
+        report(c, binp, work, flagged, inv, rej)
+        for s in rnd[:2] + sch[:2]:
             c.sample(dict(id=s["id"], kind=s["kind"], params=s["params"], status=s["status"],
                           batches=[(b["ep"], b["ids"]) for b in s["observation"]["batches"]][:12],
                           persisted=s["observation"]["persisted"], produced=s["observation"]["produced"], events=len(s["events"])))
@@ -467,6 +495,7 @@ def run(c):
         c.assume("TLC bounds: <= %s logs, page size 1-2, <= %s exporter failures, <= 1 StopPipeline/StartPipeline, <= 1 ResetPipeline, <= 1 manager restart" % (("3", "1") if q else ("4", "2")))
         c.assume("exporter = recording drivers.Driver behind the real DriverFacade (no batcher); periodic Manager synchronisation disabled (sync period 1h)")
     finally:
+        pool.shutdown(wait=False, cancel_futures=True)
         shutil.rmtree(work, ignore_errors=True)
 
 
